@@ -370,10 +370,58 @@ fn run_qnt(input: &Value) -> (Case, bool) {
                 format!("crop={}", crop.is_some()),
                 format!("small_view_of_large_parent={}", crop.is_some() && k > 0 && k.checked_mul(100).map(|d| (w * h) / d >= 2).unwrap_or(false) && !sampled),
                 format!("sampled={}", sampled),
+                format!("sample_factor={}", {
+                    let f = k.checked_mul(100).map(|d| npix / d).unwrap_or(0);
+                    match f { 0 | 1 => "<2", 2..=3 => "2-3", 4..=9 => "4-9", 10..=19 => "10-19", _ => ">=20" }
+                }),
+                format!("bg_alpha={}", match bg { None => "default", Some(b) if b[3] == 255 => "255", Some(b) if b[3] == 0 => "0", Some(_) => "translucent" }),
             ],
             nontrivial: d.len() >= 2,
         },
         hang,
+    )
+}
+
+// ------------------------------------------------------------------ ACC
+
+/// `pixels` copies of one colour through OcTree::insert (what from_image does for a one-colour image that is
+/// not sub-sampled), then build_palette.  Replays the input computed by props.d/C13.py from the declared
+/// accumulator widths; sizes above 200 M are not run.
+fn run_acc(input: &Value) -> (Case, bool) {
+    let n = input["pixels"].as_u64().unwrap_or(0);
+    let c = vrgb(&input["colour"]);
+    let r = if n > 200_000_000 {
+        None
+    } else {
+        with_timeout(600, move || {
+            catch(move || {
+                let mut tree = OcTree::new();
+                let col = rgba_of(&c);
+                for _ in 0..n {
+                    tree.insert(col);
+                }
+                tree.build_palette().iter().map(|c| c.to_rgb()).collect::<Vec<Rgb>>()
+            })
+        })
+    };
+    let hang = r.is_none();
+    let (ic, ij) = match &r {
+        None => ("IHang".to_string(), json!("not run / hang")),
+        Some(None) => ("IPanic".to_string(), json!("panic")),
+        Some(Some(p)) if p.len() == 1 => (format!("(IOk {})", crgb(&p[0])), json!([p[0][0], p[0][1], p[0][2]])),
+        Some(Some(p)) if p.is_empty() => ("INone".to_string(), json!("empty palette")),
+        Some(Some(p)) => (format!("(IOk {})", crgb(&p[1])), json!("several colours")),
+    };
+    let mut j = input.clone();
+    j["impl"] = ij;
+    (
+        Case {
+            coq: format!("ACC {} {} {}", n, crgb(&c), ic),
+            json: j,
+            tags: vec!["kind=acc".to_string()],
+            nontrivial: n >= 2,
+        },
+        hang && n <= 200_000_000,
     )
 }
 
@@ -542,7 +590,9 @@ fn gen_qnt(rng: &mut Rng, big: bool) -> Value {
         // enough pixels for the subsampling branch: h*w / (k*100) in 2..~40, up to ~10k pixels
         let w = 10 + rng.below(90) as usize;
         let lo = 200 * k as usize;
-        let need = (lo + rng.below((lo * 4) as u64) as usize).min(10000).max(lo);
+        // sample factors from 2 up to 50 (small k, many pixels), at most 10k pixels
+        let hi = (lo * if rng.chance(1, 2) { 4 } else { 25 }).min(10000).max(lo + 1);
+        let need = lo + rng.below((hi - lo) as u64) as usize;
         (need / w + 1, w)
     } else {
         (1 + rng.below(12) as usize, 1 + rng.below(16) as usize)
@@ -718,7 +768,19 @@ const HUGE_KS: [u64; 10] = [
 
 fn gen_qnt_huge_k(rng: &mut Rng) -> Value {
     let mut v = if rng.chance(1, 2) { gen_qnt_boundary(rng) } else { gen_qnt(rng, false) };
-    v["k"] = json!(*rng.pick(&HUGE_KS));
+    let k = *rng.pick(&HUGE_KS);
+    v["k"] = json!(k);
+    if rng.chance(1, 2) {
+        // 250..700 pixels, few colours, one of them rare: a release build of the unfixed code wraps
+        // `palette_size * 100` to 100 or 84 for two of these sizes, sub-samples such an image and loses the colour
+        let w = 16 + rng.below(20) as usize;
+        let h = 250 / w + 1 + rng.below(20) as usize;
+        let cols = gen_distinct(rng, 4);
+        let mut data: Vec<Value> = (0..w * h).map(|_| { let c = cols[rng.below(3) as usize]; json!([c[0], c[1], c[2], 255]) }).collect();
+        let at = rng.below((w * h) as u64) as usize;
+        data[at] = json!([cols[3][0], cols[3][1], cols[3][2], 255]);
+        v = json!({"kind": "qnt", "w": w, "h": h, "data": data, "crop": Value::Null, "k": k, "dither": rng.chance(1, 2), "bg": Value::Null});
+    }
     v
 }
 
@@ -770,6 +832,7 @@ pub fn batch(inputs: &[Value]) -> Batch {
         let (case, hang) = match input["kind"].as_str().unwrap_or("") {
             "kd" => (run_kd(input), false),
             "rnd" => (run_rnd(input), false),
+            "acc" | "accumulator-overflow" => run_acc(input),
             "oct" => run_oct(input),
             _ => run_qnt(input),
         };
